@@ -268,7 +268,18 @@ def _perturb(ctx, pol, mode):
             new.append(jnp.asarray(b))
         else:
             new.append(x)
-    return jax.tree_util.tree_unflatten(td, new)
+    out = jax.tree_util.tree_unflatten(td, new)
+    # Python-scalar parameters changed after construction (e.g. an annealed or evaluation epsilon) are part
+    # of what is saved: the load is done with the *constructor's* value, so a loader that keeps the
+    # skeleton's scalar instead of the stored one is visible
+    if isinstance(getattr(out, "epsilon", None), float) and ctx.rng.random() < 0.6:
+        import equinox as eqx
+
+        other = float(ctx.rng.choice([0.0, 0.5, 1.0, 0.25]))
+        if other != out.epsilon:
+            out = eqx.tree_at(lambda p: p.epsilon, out, other)
+            ctx.monitor("python_scalar_parameters_changed_after_construction")
+    return out
 
 
 def _param_leaves(pol):
